@@ -490,6 +490,25 @@ func specExact(f an.RFS, want map[string][]string) string {
 // c07walList: the WAL list handed to AddCheckpoint is the full snapshot's WAL
 // files followed by the WAL files of each newer snapshot, in catalogue order.
 func c07walList(c *core.Ctx, fn *ssa.Function, walArg ssa.Value, full, newerSet ssa.Value, elemSet func(ssa.Value) ssa.Value) bool {
+	// the list built by a same-package helper from the full snapshot and the newer set
+	if call, ok := walArg.(*ssa.Call); ok {
+		if g := call.Common().StaticCallee(); g != nil && len(g.Blocks) > 0 && g.Pkg == fn.Pkg && g != fn {
+			var pf, pn ssa.Value
+			for i, a := range call.Call.Args {
+				if i < len(g.Params) && a == full {
+					pf = g.Params[i]
+				}
+				if i < len(g.Params) && a == newerSet {
+					pn = g.Params[i]
+				}
+			}
+			rets := an.Returns(g)
+			if pf != nil && pn != nil && len(rets) == 1 && len(rets[0].Results) == 1 {
+				c.Touch(g)
+				return c07walList(c, g, rets[0].Results[0], pf, pn, elemSet)
+			}
+		}
+	}
 	// appends feeding walArg
 	var apps []*ssa.Call
 	seen := map[ssa.Value]bool{}
